@@ -58,6 +58,27 @@ func VerifHarness_C12_Paths() {
 	}
 }
 
+// Both ways of obtaining a constraint system for keys (setup/r1cs and key import) hand the compiler the same options: an option
+// (compression threshold, capacity hints ...) changes the constraint system, and keys made for one do not fit the other.
+func VerifHarness_C12_Options() {
+	depth := verifNondetU32("depth")
+	batch := verifNondetU32("batch")
+	verifAssume(depth <= 2 && batch <= 2)
+	if verifNondetBool("deletion") {
+		_, err := BuildR1CSDeletion(depth, batch)
+		verifAssume(err == nil)
+		_, err = ImportDeletionSetup(depth, batch, "pk", "vk")
+		verifAssume(err == nil)
+	} else {
+		_, err := BuildR1CSInsertion(depth, batch)
+		verifAssume(err == nil)
+		_, err = ImportInsertionSetup(depth, batch, "pk", "vk")
+		verifAssume(err == nil)
+	}
+	verifAssert(verifCompiledCount() == 2, "both paths compile one circuit")
+	verifAssert(verifCompiledOptions(0) == verifCompiledOptions(1), "the import path compiles the same constraint system as setup")
+}
+
 func VerifHarness_C12_DepthGuard() {
 	depth := verifNondetInt("depth")
 	batch := verifNondetLen("batch", 2)
